@@ -1,8 +1,9 @@
 From Coq Require Import Extraction ExtrOcamlBasic.
-From CAres.Config Require Import Spec Vif.
+From CAres.Config Require Import Spec Vif Hosts HostsSpec.
 Extraction Language OCaml.
 Extraction "../ocaml/gen/ConfigModel.ml"
   inet_fns vif sys_init init_options reinit save_options dup chan_set_csv chan_set_ports
   chan_set_sortlist chan_set_local get_servers_csv set_options parse_sortlist
   sconfig_append_fromstr servers_update lookup_hostaliases
+  parse_hosts hosts_search_host junk_hosts_line
   junk_class_raw junk_db_line junk_localdomain junk_res_options jclass_id ndots_documented_max pton_unspec ntop.
